@@ -657,8 +657,13 @@ def main():
             ck.sample({'family': fam, 'program': sample}, cap=6)
         for v, cls, text, d in bad:
             if v == 'nondet':
-                nondet += 1
-                print('INTERNAL nondeterminism: %s %r %s' % (cls, text, d), file=sys.stderr)
+                # One Interpreter evaluates the root build file and every subdir() file of a project; between two programs
+                # only the variables (and the argument-depth counter an aborted call leaves behind) are reset here.  A
+                # program whose result depends on what the same Interpreter evaluated before is therefore a violation
+                # ("subdir() runs as if written in place").
+                ck.violation('C01:depends-on-earlier-programs:%s' % cls.split(':')[0],
+                             'the result of %r depends on what the same Interpreter evaluated before: %s (the worker ran it on the reused and on a brand-new Interpreter)'
+                             % (text, d), {'program': text, 'verdict': 'history-dependent', 'detail': d})
                 continue
             ck.violation(classify(cls, text, v, d), '%s on %r: %s' % (v, text, d[:300]), {'program': text, 'verdict': v, 'detail': d})
     if nondet:
